@@ -8,7 +8,7 @@ from ..expr import C, SELF, canon, mapx, norm, show, strip_epochs, walk
 from ..intervals import EQ, GT, LT, path_orderings
 from ..model import AnalysisError
 from ..own import BINF, is_bucket
-from .C03 import insert_flows
+from .C03 import cpaths, insert_flows
 
 EXPL = ("Counting Bloom: add_alt, remove_alt and check_alt address the same cells (index = hash mod number of positions over the "
         "key's hash list; the lemmas 'bloom_length = number of bits in this class' and 'len(hashes) = number_hashes' are checked "
@@ -251,7 +251,7 @@ def check(prog, rep, tier):
         rep.ok("C08.cc-weights", f"{CC}.{f.src_name}: every bin built for a held entry carries that entry's count")
     ex = prog.method(CC, "_expand_logic")
     oke = True
-    for p in paths(prog, CC, ex):
+    for p in cpaths(prog, CC, ex):
         for e in p.events:
             if e.kind == "call" and e.name == "_insert_fingerprint_alt" and e.loops:
                 a = [strip_epochs(x) for x in e.args] + [strip_epochs(v) for v in e.kwargs.values()]
@@ -271,7 +271,7 @@ def check(prog, rep, tier):
     # add on a present key
     add = prog.method(CC, "add")
     oka, seen = True, False
-    for p in paths(prog, CC, add):
+    for p in cpaths(prog, CC, add):
         inc = [e for e in p.events if e.kind == "call" and e.name == "increment"]
         ins = [e for e in p.events if e.kind == "call" and e.name == "_insert_fingerprint_alt"]
         pres = [c for c in p.conds if c.atom[0] == "cmp" and c.atom[1] in ("is", "isnot") and strip_epochs(c.atom[2])[0] == "ret"
@@ -295,7 +295,7 @@ def check(prog, rep, tier):
     # remove
     rm = prog.method(CC, "remove")
     okr, seen = True, False
-    for p in paths(prog, CC, rm):
+    for p in cpaths(prog, CC, rm):
         pres = [c for c in p.conds if c.atom[0] == "cmp" and c.atom[1] in ("is", "isnot") and strip_epochs(c.atom[2])[0] == "ret"
                 and strip_epochs(c.atom[2])[1].endswith("._check_if_present")]
         absent = pres and ((pres[0].atom[1] == "is") == pres[0].truth)
